@@ -300,7 +300,8 @@ Section Suite.
     let* r0 := prod_pows bases msgs (pk_N pk) 1 in
     let* bs := pow_mod (pk_b pk) (s_s sg) (pk_N pk) in
     let rhs := Z.rem (r0 * bs * pk_c pk) (pk_N pk) in
-    if s_e sg <=? two (le CS - 1) then Ok false else
+    (* e has exactly le bits: the upper bound was missing here, present in verify (fix F18) *)
+    if (s_e sg <=? two (le CS - 1)) || (two (le CS) <=? s_e sg) then Ok false else
     Ok (lhs =? rhs).
 
   (* list update: l[i] := v (panics when out of range) *)
@@ -423,6 +424,7 @@ Section Suite.
   Definition nisp2_verify (p : nisp2) (c1 c2 : commitment) (pk : pubkey) (bases : list Z) (ck : cpubkey)
              (U : list N) : outcome bool :=
     let ch := n2_chal p in
+    if negb (Nat.eqb (length (n2_d p)) (length U)) then Ok false else
     let* i1 := pow_mod (c_value c1) (- 1 * ch) (pk_N pk) in
     let* i2 := pow_mod (c_value c2) (- 1 * ch) (ck_N ck) in
     let* l := prod_sel bases (n2_d p) (pk_N pk) U 1 in
@@ -564,6 +566,8 @@ Section Suite.
   Definition nisp5_verify (p : spok) (ck : cpubkey) (pk : pubkey) (bases rmsgs : list Z) (U : list N) (nsm : nat)
     : outcome bool :=
     if (Nat.ltb (length bases) nsm && Nat.ltb (length (ck_g ck)) nsm)%bool then Panic else
+    (* one response per hidden attribute, no more and no less (fix F17) *)
+    if negb (Nat.eqb (length (sp_s5 p)) (length U)) then Ok false else
     let N := pk_N pk in let ch := sp_chal p in
     let* tcx := walk bases N (sp_s5 p) rmsgs ch U nsm 0%N 1 in
     let tcx := Z.rem tcx N in
@@ -772,6 +776,7 @@ Section Suite.
     : outcome bool :=
     let* b0 := nisp5_verify (pk_spok p) ck pk bases rmsgs U nsm in
     if negb b0 then Ok false else
+    if negb (Nat.eqb (length (pk_pmi p)) (length U) && Nat.eqb (length (pk_rpmi p)) (length U)) then Ok false else
     if c_value (sp_Ce (pk_spok p)) =? bd_E (pk_rpe p) then
       let* g0 := nthZ (ck_g ck) 0 in
       let* b1 := boudot_verify (pk_rpe p) g0 (ck_h ck) (ck_N ck) min_e max_e in
@@ -830,6 +835,7 @@ Section Suite.
     if negb bt then Ok false else
     let* bm := nispm_verify (zk_msgs p) C pk bases (Some U) in
     if negb bm then Ok false else
+    if negb (Nat.eqb (length (zk_pmi p)) (length U) && Nat.eqb (length (zk_rpmi p)) (length U)) then Ok false else
     let* bl := zkpok_verify_loop pk bases U (zk_pmi p) (zk_rpmi p) in
     if negb bl then Ok false else
     let* a0 := nthZ bases 0 in
